@@ -38,6 +38,7 @@ class ParserState:
         "furthest_pos",
         "furthest_stack",
         "furthest_unexpected",
+        "hide_pairs",
         "input",
         "neg_pred_depth",
         "parser",
@@ -66,6 +67,9 @@ class ParserState:
         self._pos_history: list[int] = []
         self._suppress_failures = False
         self.atomic_depth = SnapshottingInt()
+        # True inside an atomic (`@`) rule, where rules produce no pairs of
+        # their own, until a `$` or `!` rule makes them visible again.
+        self.hide_pairs = False
         self.rule_stack = Stack[Rule | RuleFrame]()  # RuleFrame is for generated code.
         self.tag_stack: list[str] = []  # User tags are always enabled
         self.user_stack = Stack[str]()  # PUSH/POP/PEEK/DROP
@@ -201,9 +205,11 @@ class ParserState:
 
     @contextmanager
     def atomic_checkpoint(self) -> Iterator[ParserState]:
-        """A context manager that restores atomic depth on exit."""
+        """A context manager that restores atomic depth and pair visibility on exit."""
         self.atomic_depth.snapshot()
+        hide_pairs = self.hide_pairs
         yield self
+        self.hide_pairs = hide_pairs
         self.atomic_depth.restore()
 
     @contextmanager
